@@ -19,15 +19,19 @@ pub fn is_huge(ng: &NormGraph) -> bool {
     ng.n > 60_000
 }
 
-/// the fixed huge cases of a property: directed / undirected, weighted
+/// the fixed huge cases of a property: undirected / directed, weighted; then the same two kinds
+/// with self-loops allowed and present on the first hub and on one ordinary node
 pub fn huge_cases() -> Vec<GraphCase> {
-    [0u8, 1].into_iter().map(|kind| GraphCase { kind, n: 0, perm: 0, shape: 0, edges: vec![], wmode: 1, big_n: HUGE_N, big_seed: 0x5eed + kind as u64 }).collect()
+    [0u8, 1, 4, 5].into_iter().map(|kind| GraphCase { kind, n: 0, perm: 0, shape: 0, edges: vec![], wmode: 1, big_n: HUGE_N, big_seed: 0x5eed + kind as u64 }).collect()
 }
 
 /// positions around powers of two, both hubs, both ends, and ~300 pseudo-random ones
 pub fn sample(n: usize) -> Vec<usize> {
     let mut s: BTreeSet<usize> = [0usize, 1, 2, 3, 254, 255, 256, 257, 599, 600, 601, 32_766, 32_767, 32_768, 32_769, 65_534, 65_535, 65_536, 65_537, 65_538].into_iter().filter(|i| *i < n).collect();
-    s.extend([n - 1, n - 2, n - 600, n - 601]);
+    s.extend([n - 1, n.saturating_sub(2), n.saturating_sub(600), n.saturating_sub(601)]);
+    if n <= 2000 {
+        s.extend(0..n);
+    }
     let mut x = 0x1234_5678_9abc_def0u64;
     for k in 0..300u64 {
         x = mix(x, k);
@@ -96,7 +100,8 @@ pub fn core_reads(g: &G, ng: &NormGraph, out: &mut Outcome) {
         out.check(g.get_node(x.clone()).map(|nd| (nd.name.clone(), nd.attributes)) == Some((x.clone(), Some(i as i32))), "get_node/eq_model/huge_graph", || format!("position {}", i));
         out.check(g.has_node(&x), "has_node/eq_model/huge_graph", || format!("position {}", i));
         // incident edges
-        let mut want: Vec<(usize, usize, u64)> = adj.out[i].iter().map(|(j, w)| key(ng, i, *j, *w)).chain(adj.inn[i].iter().map(|(j, w)| key(ng, *j, i, *w))).collect();
+        // (a directed self-loop is one edge: listed once)
+        let mut want: Vec<(usize, usize, u64)> = adj.out[i].iter().map(|(j, w)| key(ng, i, *j, *w)).chain(adj.inn[i].iter().filter(|(j, _)| *j != i).map(|(j, w)| key(ng, *j, i, *w))).collect();
         want.sort();
         match g.get_edges_for_node(x.clone()) {
             Ok(l) => {
@@ -218,6 +223,11 @@ pub fn core_mutations(g: &mut G, ng: &NormGraph, out: &mut Outcome) {
 
 /// C03 / C04 on the huge graph: distances from a few sources against a heap Dijkstra on the edge list.
 pub fn distances(g: &G, ng: &NormGraph, api: &str, out: &mut Outcome) {
+    distances_opt(g, ng, api, true, out)
+}
+
+/// `first_only = false` asks for every shortest path (only sensible where they are few)
+pub fn distances_opt(g: &G, ng: &NormGraph, api: &str, first_only: bool, out: &mut Outcome) {
     use graphrs::algorithms::shortest_path::dijkstra;
     let n = ng.n;
     let index: std::collections::HashMap<&str, usize> = ng.names.iter().enumerate().map(|(i, s)| (s.as_str(), i)).collect();
@@ -227,7 +237,7 @@ pub fn distances(g: &G, ng: &NormGraph, api: &str, out: &mut Outcome) {
             let (dist, _, _, _) = sssp_counts(&adj, s);
             out.api_calls += 1;
             // (first_only: the set of all shortest paths is not needed here)
-            match guard(|| dijkstra::single_source(g, weighted, ng.names[s].clone(), None, None, true, true)) {
+            match guard(|| dijkstra::single_source(g, weighted, ng.names[s].clone(), None, None, first_only, true)) {
                 Err(p) => out.fail(format!("{}/panic/{}", api, panic_class(&p)), p),
                 Ok(Err(e)) => out.fail(format!("{}/error/huge_graph", api), kind_of(&e)),
                 Ok(Ok(m)) => {
@@ -285,10 +295,18 @@ pub fn degrees(g: &G, ng: &NormGraph, out: &mut Outcome) {
     let outd = g.get_out_degree_for_all_nodes();
     out.check(deg.len() == n && wdeg.len() == n && dc.len() == n, "get_degree_for_all_nodes/keys/huge_graph", || format!("{} {} {}", deg.len(), wdeg.len(), dc.len()));
     out.check(ind.is_ok() == ng.directed && outd.is_ok() == ng.directed, "get_in_degree_for_all_nodes/kind_guard/huge_graph", || "wrong kind".to_string());
+    // an undirected self-loop is listed once in the adjacency oracle but adds two to the degree
+    let extra = |i: usize| -> (usize, f64) {
+        if ng.directed {
+            (0, 0.0)
+        } else {
+            adj.out[i].iter().filter(|x| x.0 == i).fold((0, 0.0), |a, x| (a.0 + 1, a.1 + x.1))
+        }
+    };
     let mut sum = 0usize;
     for i in 0..n {
-        let want = adj.out[i].len() + adj.inn[i].len();
-        let wwant: f64 = adj.out[i].iter().chain(adj.inn[i].iter()).map(|x| x.1).sum();
+        let want = adj.out[i].len() + adj.inn[i].len() + extra(i).0;
+        let wwant: f64 = adj.out[i].iter().chain(adj.inn[i].iter()).map(|x| x.1).sum::<f64>() + extra(i).1;
         let x = &ng.names[i];
         let got = deg.get(x).copied();
         sum += got.unwrap_or(0);
@@ -315,9 +333,9 @@ pub fn degrees(g: &G, ng: &NormGraph, out: &mut Outcome) {
     out.check(sum == 2 * m, "handshake/sum_deg_eq_2m/huge_graph", || format!("{} vs {}", sum, 2 * m));
     for i in sample(n) {
         out.api_calls += 2;
-        let want = adj.out[i].len() + adj.inn[i].len();
+        let want = adj.out[i].len() + adj.inn[i].len() + extra(i).0;
         out.check(g.get_node_degree(ng.names[i].clone()) == Some(want), "get_node_degree/eq_model/huge_graph", || format!("position {}", i));
-        let wwant: f64 = adj.out[i].iter().chain(adj.inn[i].iter()).map(|x| x.1).sum();
+        let wwant: f64 = adj.out[i].iter().chain(adj.inn[i].iter()).map(|x| x.1).sum::<f64>() + extra(i).1;
         out.check(g.get_node_weighted_degree(ng.names[i].clone()) == Some(wwant), "get_node_weighted_degree/eq_model/huge_graph", || format!("position {}", i));
     }
     let dens = m as f64 / (n as f64 * (n as f64 - 1.0)) * if ng.directed { 1.0 } else { 2.0 };
@@ -553,6 +571,21 @@ pub fn derived(g: &G, ng: &NormGraph, out: &mut Outcome) {
             out.check(sub.get_node_by_index(&p).map(|x| x.name.clone()) == Some(ng.names[n - 1].clone()), "get_subgraph/result/position/huge_graph", || format!("position {}", p));
         }
     }
+    // short requests with repeated names around the first hub
+    for req in [vec![0usize, 1, 0, 2], vec![2, 0, 1, 0, 0, n / 2], vec![n - 1, 0, n - 1]] {
+        let names: Vec<String> = req.iter().map(|i| ng.names[*i].clone()).collect();
+        let set: BTreeSet<usize> = req.iter().copied().collect();
+        out.api_calls += 1;
+        match guard(|| g.get_subgraph(&names)) {
+            Err(p) => out.fail(format!("get_subgraph/panic/{}", panic_class(&p)), format!("request {:?}: {}", req, p)),
+            Ok(sub) => {
+                let mut want: Vec<(usize, usize, u64)> = ng.edges.iter().filter(|(i, j, _)| set.contains(i) && set.contains(j)).map(|(i, j, w)| key(ng, *i, *j, *w)).collect();
+                want.sort();
+                let got = canon(&sub, false);
+                out.check(got == want && sub.number_of_nodes() == set.len(), "get_subgraph/result/edge_multiset/huge_graph_short_request", || format!("request {:?}: {} nodes {} edges, want {} nodes {} edges", req, sub.number_of_nodes(), got.len(), set.len(), want.len()));
+            }
+        }
+    }
     out.api_calls += 1;
     match guard(|| g.reverse()) {
         Err(p) => out.fail(format!("reverse/panic/{}", panic_class(&p)), p),
@@ -606,6 +639,66 @@ pub fn huge_ops(seed: u64) -> Vec<crate::model::Op> {
     ops
 }
 
+/// A universal hub: node 0 is adjacent to every other node; the nodes are created in numeric
+/// order but the hub's edges arrive in another order (`kind`): 4 = sorted as text ("1", "10",
+/// "100", ... "9999"; 10 000 nodes), 5 = descending, 6 = even then odd, 7 = first and last in place
+/// and everything between them reversed (1 500 nodes each). Position in the hub's adjacency list
+/// and node index are then related in a different way each time.
+pub fn star_graph(kind: u8, directed: bool) -> NormGraph {
+    let n: usize = if kind == 4 { 10_000 } else { 1_500 };
+    let mut leaves: Vec<usize> = (1..n).collect();
+    match kind {
+        4 => leaves.sort_by_key(|i| i.to_string()),
+        5 => leaves.reverse(),
+        6 => leaves.sort_by_key(|i| (i % 2, *i)),
+        _ => {
+            let k = leaves.len();
+            leaves[1..k - 1].reverse();
+        }
+    }
+    // leaf -> hub for one edge in three when directed, so that both lists grow
+    let edges = leaves.iter().enumerate().map(|(k, l)| if directed && k % 3 == 2 { (*l, 0, ((k % 12) as f64 + 1.0) / 4.0) } else { (0, *l, ((k % 12) as f64 + 1.0) / 4.0) }).collect();
+    NormGraph { directed, multi: false, loops: false, n, names: (0..n).map(|i| i.to_string()).collect(), order: (0..n).collect(), edges, weighted: true }
+}
+
+/// One very large batch on an almost empty graph: `add_edges` with thousands of edges over new
+/// names, in which one element repeats an earlier pair (reversed) and a later one is a self-loop,
+/// both followed by names that exist nowhere else. Whether the batch stops there, and what it
+/// leaves behind, is the model's business (C01: "a batch add applies exactly the prefix that
+/// precedes the first failing edge").
+fn bulk_history(case: &crate::model::HistCase, aspect: Aspect, out: &mut Outcome) {
+    use crate::model::*;
+    let spec = SpecBits::from_index(case.spec);
+    let k = [5000usize, 4096, 4097, 8192][case.universe as usize % 4];
+    reset_edge_pool();
+    let mut g = G::new(spec.to_specs());
+    let mut m = Model::new(spec);
+    // two nodes exist beforehand; everything else is new to the graph
+    for (i, name) in ["b0", "b1"].iter().enumerate() {
+        g.add_node(mk_node(name, Some(i as i32)));
+        m.add_node(name, Some(i as i32));
+    }
+    let mut batch: Vec<(String, String, f64)> = (0..k).map(|i| (format!("b{}", 2 * i), format!("b{}", 2 * i + 1), ((i % 16) as f64 + 1.0) / 4.0)).collect();
+    let dup = batch[k / 4].clone();
+    batch[k / 2] = (dup.1.clone(), dup.0.clone(), 7.5);
+    batch[3 * k / 4] = (format!("b{}", 6 * k), format!("b{}", 6 * k), 1.0);
+    let objs: Vec<_> = batch.iter().map(|(u, v, w)| mk_edge(u, v, *w)).collect();
+    let esa: Vec<(String, String, f64, Option<i32>)> = batch.iter().zip(objs.iter()).map(|((u, v, w), e)| (u.clone(), v.clone(), *w, e.attributes)).collect();
+    let mr = m.add_edges_a(&esa);
+    let gr = res_kind(&g.add_edges(objs));
+    out.api_calls += 1;
+    out.class(format!("bulk_batch_of_{}_edges_{}", k, mr));
+    if mr != gr {
+        if aspect == Aspect::Mutations {
+            out.fail(format!("add_edges/outcome/bulk_model_{}_graph_{}", mr, gr), format!("a batch of {} edges returned {} but the specs dictate {}", k, gr, mr));
+        } else {
+            out.class("diverged_from_model");
+        }
+        return;
+    }
+    finish_history(&g, &m, spec, aspect, out);
+}
+
 #[derive(Clone, Copy, PartialEq, Eq, Debug)]
 pub enum Aspect {
     Mutations,
@@ -621,7 +714,13 @@ pub enum Aspect {
 pub fn history(case: &crate::model::HistCase, aspect: Aspect, out: &mut Outcome) {
     use crate::model::*;
     let spec = SpecBits::from_index(case.spec);
-    let ng = crate::oracle::procedural_graph(HUGE_N as usize, 0x5eed + spec.directed as u64, spec.directed, true);
+    if case.huge == 3 {
+        return bulk_history(case, aspect, out);
+    }
+    let ng = match case.huge {
+        1 | 2 => crate::oracle::procedural_graph(HUGE_N as usize, 0x5eed + spec.directed as u64, spec.directed, true),
+        k => star_graph(k, spec.directed),
+    };
     let n = ng.n;
     reset_edge_pool();
     let mut g = G::new(spec.to_specs());
@@ -645,7 +744,7 @@ pub fn history(case: &crate::model::HistCase, aspect: Aspect, out: &mut Outcome)
         ng.names[nb0[0]].clone(),
         ng.names[nb0[nb0.len() / 2]].clone(),
         ng.names[n - 1].clone(),
-        ng.names[65_536].clone(),
+        ng.names[if n > 65_536 { 65_536 } else { nb0[nb0.len() / 3] }].clone(),
         "zz-new".to_string(),
     ];
     set_universe_names(Some(universe));
@@ -668,6 +767,11 @@ pub fn history(case: &crate::model::HistCase, aspect: Aspect, out: &mut Outcome)
     if m.ev.duplicate > 0 {
         out.class("huge_history_duplicate_on_hub_pair");
     }
+    finish_history(&g, &m, spec, aspect, out);
+}
+
+fn finish_history(g: &G, m: &crate::model::Model, spec: crate::model::SpecBits, aspect: Aspect, out: &mut Outcome) {
+    use crate::model::*;
     // the final state as a NormGraph (positions from the model)
     let index: std::collections::HashMap<&str, usize> = m.nodes.iter().enumerate().map(|(i, x)| (x.0.as_str(), i)).collect();
     let fin = NormGraph {
@@ -687,7 +791,7 @@ pub fn history(case: &crate::model::HistCase, aspect: Aspect, out: &mut Outcome)
             out.check(gn.len() == fin.n && gn.iter().zip(&fin.names).all(|(a, b)| *a == b), "history/node_list/huge_graph", || format!("{} nodes, model {}", gn.len(), fin.n));
             let ga: Vec<Option<i32>> = g.get_all_nodes().iter().map(|x| x.attributes).collect();
             out.check(ga == m.nodes.iter().map(|x| x.1).collect::<Vec<_>>(), "history/node_attributes/huge_graph", || "node attributes differ".to_string());
-            let ge = graph_edge_multiset_a(&g);
+            let ge = graph_edge_multiset_a(g);
             let me = m.edge_multiset_a();
             if ge != me {
                 let k = ge.iter().zip(&me).position(|(a, b)| a != b).unwrap_or(ge.len().min(me.len()));
@@ -696,7 +800,7 @@ pub fn history(case: &crate::model::HistCase, aspect: Aspect, out: &mut Outcome)
         }
         Aspect::Reads => {
             let mut o2 = Outcome::new();
-            core_reads(&g, &fin, &mut o2);
+            core_reads(g, &fin, &mut o2);
             out.api_calls += o2.api_calls;
             for f in o2.failures {
                 // (re-added nodes carry new attributes; core_reads expects Some(position))
@@ -708,9 +812,9 @@ pub fn history(case: &crate::model::HistCase, aspect: Aspect, out: &mut Outcome)
         }
         Aspect::Traversal => {
             if fin.weighted {
-                crate::coherent::traversal_check(&g, &m, out);
+                crate::coherent::traversal_check(g, m, out);
                 if out.failures.is_empty() {
-                    distances(&g, &fin, "single_source", out);
+                    distances(g, &fin, "single_source", out);
                 }
             } else {
                 out.class("mixed_weights_skipped");
